@@ -163,6 +163,14 @@ var tokRe = regexp.MustCompile("(?s)\\.\\.\\.|@@|:=|[A-Za-z_][A-Za-z_0-9]*|[0-9]
 
 func c08Tokens(s string) []string { return tokRe.FindAllString(s, -1) }
 
+var c08ModelOpts = modelOpts{
+	Mine:         gen.MineOpts{MaxHoles: 2, MaxDots: 2},
+	MaxHostLines: 200,
+	MinPlants:    0, MaxPlants: 2,
+	MinMutants: 0, MaxMutants: 1,
+	AddImport: 4,
+}
+
 func TestC08(t *testing.T) {
 	c := coll("C08")
 	run.DefaultTimeout = hangTimeout
@@ -251,7 +259,14 @@ func TestC08(t *testing.T) {
 	checkN(t, func(rt *rapid.T) {
 		nGen++
 		cs := &c08Case{}
-		switch rapid.IntRange(0, 9).Draw(rt, "mode") {
+		mode := rapid.IntRange(0, 9).Draw(rt, "mode")
+		if mode == 5 || mode == 6 {
+			// the mined multi-change mode costs ~100x the others: 1 case in 25
+			if rapid.IntRange(0, 4).Draw(rt, "minedShare") != 0 {
+				mode = 7
+			}
+		}
+		switch mode {
 		case 0:
 			cs.Mode = "bytes"
 			cs.Patch = rapid.SliceOfN(rapid.Byte(), 0, 200).Draw(rt, "bytes")
@@ -292,6 +307,40 @@ func TestC08(t *testing.T) {
 			if rapid.IntRange(0, 3).Draw(rt, "otherTarget") == 0 {
 				cs.Target = targets[rapid.IntRange(0, len(targets)-1).Draw(rt, "target")]
 			}
+		case 5, 6:
+			// Well-formed multi-change patches on real, densely commented
+			// hosts: a mined change followed by changes that match what it
+			// introduced, add imports, regroup declarations.
+			cs.Mode = "mined-multi"
+			mcs, _ := genModelCase(rt, c08ModelOpts)
+			if mcs == nil {
+				c.Note("generator:no-mined-case")
+				return
+			}
+			host := []byte(mcs.Host)
+			if rapid.Bool().Draw(rt, "injectComments") {
+				if inj := c17Inject(rt, host); c07Parses(inj) == nil {
+					host = inj
+				}
+			}
+			cs.Target = string(host)
+			patch := mcs.Patch
+			n := rapid.IntRange(1, 3).Draw(rt, "moreChanges")
+			for k := 0; k < n; k++ {
+				switch rapid.IntRange(0, 3).Draw(rt, fmt.Sprintf("mk%d", k)) {
+				case 0:
+					fu := c09FollowUps(gen.Marker+"0", fmt.Sprintf("nxq%d", k))
+					patch += "\n" + fu[rapid.IntRange(0, len(fu)-1).Draw(rt, fmt.Sprintf("fu%d", k))]
+				case 1:
+					imp := rapid.SampledFrom([]string{"+import \"context\"", "+import ctx \"context\"", " import \"fmt\"", "-import \"fmt\"\n+import \"context\"", "+import _ \"embed\""}).Draw(rt, fmt.Sprintf("imp%d", k))
+					patch += fmt.Sprintf("\n@@\n@@\n%s\n\n-%s0\n+imq%d\n", imp, gen.Marker, k)
+				case 2:
+					patch += "\n" + rapid.SampledFrom(c17Extra).Draw(rt, fmt.Sprintf("extra%d", k))
+				default:
+					patch += "\n" + c09FailingChange(gen.Marker+"0")
+				}
+			}
+			cs.Patch = []byte(patch)
 		default:
 			cs.Mode = "illtyped"
 			it := gen.DrawIllTyped(rt)
